@@ -935,12 +935,14 @@ class Circle:
             vector = diagram.Vector2D(*vector)
         if not isinstance(source, diagram.Vector2D):
             source = diagram.Vector2D(*source)
-        direction = source - vector
-        if vector == self.center:
-            vector = direction
-        assert vector != (0, 0)
+        # Leave the center in the direction of the vector, or towards
+        # the source if the vector is the center itself.
+        direction = vector - self.center
+        if direction == (0, 0):
+            direction = source - vector
+        assert direction != (0, 0)
 
-        return self.center + vector.normalized * self.radius
+        return self.center + direction.normalized * self.radius
 
     def __str__(self) -> str:
         return (
